@@ -24,7 +24,7 @@ def tie(theorems, modules=("Qvnt.Lemmas.GenCore", "Qvnt.Lemmas.GenKOps", "Qvnt.L
     return {"modules": list(modules), "theorems": theorems, "select": True, "sources": sources}
 
 
-GEN2_MODULES = ["Qvnt.Lemmas." + m for m in ("GenQuant", "GenOps", "GenBits", "GenH", "GenCtors", "GenQft", "GenSample", "GenVirtl",
+GEN2_MODULES = ["Qvnt.Lemmas." + m for m in ("GenQuant", "GenQProb", "GenOps", "GenBits", "GenH", "GenCtors", "GenQft", "GenSample", "GenVirtl",
                                                "GenExtOp", "GenTwins", "GenCreg", "GenMeas", "GenSym", "GenInt")]
 
 
